@@ -62,6 +62,10 @@ def enumerate_shapes(module, constants, invariants=("InvIntegrity",), workers=8,
 # ---------------------------------------------------------------------------
 # realisation of an abstract undirected state
 # ---------------------------------------------------------------------------
+PAST = os.environ.get("XGI_VERIF_NO_PAST") is None  # shuffled realisations may be networks with a past
+_SCRATCH = "__scratch__"
+
+
 def realise(j, g, rng=None, cls=xgi.Hypergraph, shuffle=True, edge_id_map=None):
     """Build the network described by the J state under gamma g.  With `shuffle`, nodes,
     edges and members are inserted in a random order (the result's view order is then a
@@ -87,7 +91,23 @@ def realise(j, g, rng=None, cls=xgi.Hypergraph, shuffle=True, edge_id_map=None):
                 mem = list(mem)
                 if shuffle:
                     rng.shuffle(mem)
-                H.add_edge([g.node(n) for n in mem], idx=g.edge(em.get(e, e)), **g.attrs(a, "e"))
+                eid = g.edge(em.get(e, e))
+                r = rng.random() if (shuffle and PAST and mem) else 1.0
+                if r < 0.1 and len(mem) >= 2:
+                    # a network with a past: the edge grew to its members one node at a time ...
+                    H.add_edge([g.node(n) for n in mem[:-1]], idx=eid, **g.attrs(a, "e"))
+                    H.add_node_to_edge(eid, g.node(mem[-1]))
+                elif r < 0.2:
+                    # ... or lost a member that a scratch node had in it, and the scratch node went away again
+                    H.add_edge([g.node(n) for n in mem] + [_SCRATCH], idx=eid, **g.attrs(a, "e"))
+                    H.remove_node(_SCRATCH, strong=False)
+                elif r < 0.28:
+                    # ... or a scratch edge over the same members (named, so the id counter is not touched) was removed
+                    H.add_edge([g.node(n) for n in mem], idx=_SCRATCH)
+                    H.add_edge([g.node(n) for n in mem], idx=eid, **g.attrs(a, "e"))
+                    H.remove_edge(_SCRATCH)
+                else:
+                    H.add_edge([g.node(n) for n in mem], idx=eid, **g.attrs(a, "e"))
     for k, v in g.attrs(j["gattr"], "g").items():
         H[k] = v
     return H
